@@ -39,7 +39,9 @@ LayoutDevs(e) ==
     \cup (IF e.overdraw = 0 THEN {} ELSE {Dev("C20.layout", "cells_drawn_by_two_children", e.overdraw)})
 
 AllDevs(e) == IF e.ev \in {"VpNew", "VpOp"} THEN ProbeDevs(e) \cup ClampDevs(e)
-              ELSE IF e.ev = "Layout" THEN LayoutDevs(e) ELSE {}
+              ELSE IF e.ev = "Layout" THEN LayoutDevs(e)
+              \* a documented call that panics leaves no state of which the property could hold
+              ELSE IF e.ev = "Panic" THEN {Dev("C20.panic", e.area, [op |-> e.op, msg |-> e.msg])} ELSE {}
 
 Report(e, devs) == \A d \in devs : PrintT("@@V " \o ToJson(d @@ [l |-> l, ev |-> e.ev]))
 Init == l = 1 /\ nviol = 0
